@@ -37,6 +37,7 @@ int main(int argc, char** argv) {
     const bool T = true /* the wide lattices run in both tiers */; const bool D = R.thorough(); (void)D;
     std::vector<unsigned> ns = T ? std::vector<unsigned>{32, 33, 48, 64} : std::vector<unsigned>{32, 33, 48};
     std::vector<unsigned> stepss = T ? std::vector<unsigned>{50, 100} : std::vector<unsigned>{50, 100};
+    if (D) { ns.push_back(65); ns.push_back(96); stepss.push_back(200); }
     std::vector<double> Tds = T ? std::vector<double>{0.5, 1, 2, 4} : std::vector<double>{1, 2};
     std::vector<double> zooms = T ? std::vector<double>{0.5, 0.8, 1, 1.3, 1.6} : std::vector<double>{0.6, 1, 1.4};
     double worst_limit = 0, worst_flat = 0, worst_zoom = 0, worst_none = 0;
